@@ -233,6 +233,44 @@ class Analysis:
     def xtext(self, e: ast.expr, fi: Optional[FunctionInfo], stop: Iterable[str] = ()) -> str:
         return norm(self.expand(e, fi, stop=stop))
 
+    def ctext(self, e: ast.expr, fi: Optional[FunctionInfo] = None, stop: Iterable[str] = (), expand=True) -> str:
+        """Canonical text: single-assignment locals inlined, then equivalent
+        spellings unified (see `canon`)."""
+        x = self.expand(e, fi, stop=stop) if (expand and fi is not None) else copy.deepcopy(e)
+        return norm(canon(x))
+
+    def cvalues(self, fi: FunctionInfo, name: str, g: Optional[CFG] = None, start: Optional[Node] = None,
+                stop: Iterable[str] = ()) -> List[Tuple[Conj, str]]:
+        """Conditional value set of a local: one (guard, canonical value text) per
+        definition, with conditional expressions split — so that
+        `x = a if c else b` and `if c: x = a / else: x = b` give the same set."""
+        g = g or self.cfg(fi, "plain")
+        out: List[Tuple[Conj, str]] = []
+        for d in self.defs(fi, name):
+            if not isinstance(d, (ast.Assign, ast.AnnAssign)) or d.value is None:
+                continue
+            if isinstance(d, ast.Assign) and not (len(d.targets) == 1 and isinstance(d.targets[0], ast.Name)):
+                continue
+            nodes = g.nodes_of(d)
+            if not nodes:
+                continue
+            guards = self.path_guards(g, start or g.entry, nodes[0], fi)
+            for conj in guards:
+                for (extra, val) in _split_ifexp(self, d.value, fi):
+                    for e2 in extra:
+                        c2 = conj | e2
+                        if _consistent(c2):
+                            out.append((frozenset(c2), self.ctext(val, fi, stop=list(stop) + [name])))
+        # merge entries with the same value
+        by_val: Dict[str, List[Conj]] = {}
+        for c, v in out:
+            by_val.setdefault(v, []).append(c)
+        res = []
+        for v, cs in by_val.items():
+            for c in _simplify(cs):
+                res.append((c, v))
+        return sorted(res, key=lambda t: (t[1], sorted(t[0])))
+
     # ---------------------------------------------------- boolean guards
     def atom(self, e: ast.expr, fi: Optional[FunctionInfo]) -> Atom:
         """Canonical atom (text, polarity) for a non-boolean-operator test."""
@@ -295,12 +333,42 @@ class Analysis:
             return self.atom(e.args[0], fi)
         return ("t(%s)" % tx(e), True)
 
-    def dnf(self, e: ast.expr, positive: bool, fi: Optional[FunctionInfo], inline=True, _depth=0) -> List[Conj]:
+    def pred_body(self, call: ast.Call, fi: Optional[FunctionInfo]) -> Optional[ast.expr]:
+        """If `call` is `recv.pred()` (no arguments) of a repository method whose body is a single
+        `return <expr>`, the returned expression with `self` replaced by the receiver."""
+        if call.args or call.keywords or not isinstance(call.func, ast.Attribute) or not hasattr(call, "_module"):
+            return None
+        cs = [c for c in self.res.callees(call) if c in self.prog.functions]
+        if len(cs) != 1:
+            return None
+        f = self.prog.functions[cs[0]]
+        body = [b for b in f.node.body if not (isinstance(b, ast.Expr) and isinstance(b.value, ast.Constant))]
+        if len(body) != 1 or not isinstance(body[0], ast.Return) or body[0].value is None or f.is_static or len(f.params) != 1:
+            return None
+        recv = call.func.value
+
+        class R(ast.NodeTransformer):
+            def visit_Name(self, n):
+                if n.id == f.params[0]:
+                    return copy.deepcopy(recv)
+                return n
+        new = R().visit(copy.deepcopy(body[0].value))
+        for sub in ast.walk(new):
+            if not hasattr(sub, "_module"):
+                sub._module = f.module  # type: ignore[attr-defined]
+                sub._func = f  # type: ignore[attr-defined]
+        return new
+
+    def dnf(self, e: ast.expr, positive: bool, fi: Optional[FunctionInfo], inline=True, _depth=0, inline_preds=False) -> List[Conj]:
         """DNF of a test expression (negated when positive=False). Local
         booleans with a single assignment are inlined."""
+        if inline_preds and isinstance(e, ast.Call) and _depth < 4:
+            pb = self.pred_body(e, fi)
+            if pb is not None:
+                return self.dnf(pb, positive, fi, inline=False, _depth=_depth + 1, inline_preds=True)
         if isinstance(e, ast.BoolOp):
             is_and = isinstance(e.op, ast.And)
-            parts = [self.dnf(v, positive, fi, inline, _depth) for v in e.values]
+            parts = [self.dnf(v, positive, fi, inline, _depth, inline_preds) for v in e.values]
             if is_and == positive:  # conjunction
                 return _and_all(parts)
             out: List[Conj] = []
@@ -308,11 +376,11 @@ class Analysis:
                 out.extend(p_)
             return _simplify(out)
         if isinstance(e, ast.UnaryOp) and isinstance(e.op, ast.Not):
-            return self.dnf(e.operand, not positive, fi, inline, _depth)
+            return self.dnf(e.operand, not positive, fi, inline, _depth, inline_preds)
         if inline and isinstance(e, ast.Name) and fi is not None and _depth < 6:
             v = self.single_def_value(fi, e.id)
             if v is not None and isinstance(v, (ast.BoolOp, ast.Compare, ast.UnaryOp, ast.Call, ast.Name, ast.Attribute)):
-                return self.dnf(v, positive, fi, inline, _depth + 1)
+                return self.dnf(v, positive, fi, inline, _depth + 1, inline_preds)
         if isinstance(e, ast.IfExp) or isinstance(e, ast.NamedExpr):
             pass
         a, pol = self.atom(e, fi)
@@ -320,7 +388,19 @@ class Analysis:
             return [frozenset()] if pol == positive else []
         return [frozenset({(a, pol == positive)})]
 
-    def path_guards(self, g: CFG, start: Node, target: Node, fi: FunctionInfo, extra_stop: Iterable[Node] = ()) -> List[Conj]:
+    def const_elements(self, m, name: str) -> Optional[List[str]]:
+        """Normalised element texts of a module-level tuple/list/set/frozenset constant."""
+        vals = m.assigns.get(name)
+        if not vals or len(vals) != 1:
+            return None
+        v = vals[0]
+        if isinstance(v, ast.Call) and norm(v.func) in ("frozenset", "set", "tuple", "list") and len(v.args) == 1:
+            v = v.args[0]
+        if isinstance(v, (ast.Tuple, ast.List, ast.Set)):
+            return [norm(x) for x in v.elts]
+        return None
+
+    def path_guards(self, g: CFG, start: Node, target: Node, fi: FunctionInfo, extra_stop: Iterable[Node] = (), inline_preds=False) -> List[Conj]:
         """DNF of the condition under which control flows start ->* target along
         normal (non-exceptional, non-back) edges."""
         paths = g.enum_paths(start, {target}, skip_labels=lambda l: is_exc(l) or is_back(l), stop=set(extra_stop))
@@ -330,7 +410,7 @@ class Analysis:
             dead = False
             for (n, l) in path:
                 if n.kind == "test" and cfgm.branch_of(l):
-                    d = self.dnf(n.ast, cfgm.branch_of(l) == "T", fi)
+                    d = self.dnf(n.ast, cfgm.branch_of(l) == "T", fi, inline_preds=inline_preds)
                     conj = _and_all([conj, d])
                     if not conj:
                         dead = True
@@ -389,6 +469,95 @@ class Analysis:
                 if cls_fq in self.res.callees(c):
                     out.append((self.prog.functions[fq], c))
         return out
+
+
+def _split_ifexp(A, e: ast.expr, fi) -> List[Tuple[List[Conj], ast.expr]]:
+    """[(guard DNF, value)] for a (possibly nested) conditional expression."""
+    if isinstance(e, ast.IfExp):
+        t = A.dnf(e.test, True, fi)
+        f = A.dnf(e.test, False, fi)
+        out = []
+        for (g1, v) in _split_ifexp(A, e.body, fi):
+            out.append((_and_all([t, g1]), v))
+        for (g1, v) in _split_ifexp(A, e.orelse, fi):
+            out.append((_and_all([f, g1]), v))
+        return out
+    return [([frozenset()], e)]
+
+
+class _Canon(ast.NodeTransformer):
+    """Unifies equivalent spellings:
+    map(lambda x: B, IT) / [B for x in IT] / (B for x in IT)  -> (B for _v in IT)
+    filter(lambda x: P, IT) -> (_v for _v in IT if P);  filter(None, IT) -> (_v for _v in IT if _v)
+    comprehension / lambda variables renamed to _v0, _v1, …; keyword arguments sorted."""
+
+    def __init__(self):
+        self.k = 0
+
+    def _fresh(self):
+        self.k += 1
+        return "_v%d" % (self.k - 1)
+
+    def visit_ListComp(self, n):
+        return self.visit(ast.GeneratorExp(elt=n.elt, generators=n.generators))
+
+    def visit_GeneratorExp(self, n):
+        ren = {}
+        for gen in n.generators:
+            for x in ast.walk(gen.target):
+                if isinstance(x, ast.Name) and x.id not in ren:
+                    ren[x.id] = self._fresh()
+        n = _Rename(ren).visit(n)
+        self.generic_visit(n)
+        return n
+
+    def visit_Call(self, c):
+        if isinstance(c.func, ast.Name) and c.func.id in ("map", "filter") and len(c.args) == 2 and not c.keywords:
+            fn, it = c.args
+            if c.func.id == "map" and isinstance(fn, ast.Lambda) and len(fn.args.args) == 1:
+                v = fn.args.args[0].arg
+                return self.visit(ast.GeneratorExp(elt=fn.body, generators=[ast.comprehension(target=ast.Name(id=v, ctx=ast.Store()), iter=it, ifs=[], is_async=0)]))
+            if c.func.id == "map" and isinstance(fn, (ast.Name, ast.Attribute)):
+                v = "_m"
+                return self.visit(ast.GeneratorExp(elt=ast.Call(func=fn, args=[ast.Name(id=v, ctx=ast.Load())], keywords=[]),
+                                                   generators=[ast.comprehension(target=ast.Name(id=v, ctx=ast.Store()), iter=it, ifs=[], is_async=0)]))
+            if c.func.id == "filter" and isinstance(fn, ast.Lambda) and len(fn.args.args) == 1:
+                v = fn.args.args[0].arg
+                return self.visit(ast.GeneratorExp(elt=ast.Name(id=v, ctx=ast.Load()),
+                                                   generators=[ast.comprehension(target=ast.Name(id=v, ctx=ast.Store()), iter=it, ifs=[fn.body], is_async=0)]))
+            if c.func.id == "filter" and isinstance(fn, ast.Constant) and fn.value is None:
+                v = "_f"
+                return self.visit(ast.GeneratorExp(elt=ast.Name(id=v, ctx=ast.Load()),
+                                                   generators=[ast.comprehension(target=ast.Name(id=v, ctx=ast.Store()), iter=it, ifs=[ast.Name(id=v, ctx=ast.Load())], is_async=0)]))
+        self.generic_visit(c)
+        c.keywords = sorted(c.keywords, key=lambda k: k.arg or "")
+        return c
+
+    def visit_Lambda(self, n):
+        ren = {a.arg: self._fresh() for a in n.args.args}
+        n = _Rename(ren).visit(n)
+        for a in n.args.args:
+            a.arg = ren.get(a.arg, a.arg)
+        self.generic_visit(n)
+        return n
+
+
+class _Rename(ast.NodeTransformer):
+    def __init__(self, ren):
+        self.ren = ren
+
+    def visit_Name(self, n):
+        if n.id in self.ren:
+            return ast.copy_location(ast.Name(id=self.ren[n.id], ctx=n.ctx), n)
+        return n
+
+
+def canon(e: ast.AST) -> ast.AST:
+    return ast.fix_missing_locations(_Canon().visit(copy.deepcopy(e)))
+
+
+def ctext_of(e: ast.AST) -> str:
+    return norm(canon(e))
 
 
 def _and_all(parts: List[List[Conj]]) -> List[Conj]:
